@@ -749,7 +749,30 @@ def errprop_rule(ctx, fn_pred, label, cfgs=("A", "B"), floor=10):
                        "%s: error of %s is swallowed (%s): a truncated or damaged stream would be "
                        "accepted with default/partial data instead of being rejected"
                        % (p, ps[0] if ps else "?", how))
+            # a Result that arrives as a value (closure parameter, iterator item) and is
+            # discarded by a combinator: `.ok()`, `unwrap_or*`, `is_ok()`, `flatten()` ...
+            for b, t in fa.calls():
+                ps = [strip_generics(x) for x in callee_paths(t)]
+                nm = ps[0].rsplit("::", 1)[-1] if ps else ""
+                if not any("result::Result" in x for x in ps) or \
+                        nm not in ("ok", "unwrap_or", "unwrap_or_default", "unwrap_or_else", "is_ok",
+                                   "is_err", "err", "iter", "into_iter", "map_or", "map_or_else"):
+                    continue
+                pl = op_place(t["args"][0]) if t["args"] else None
+                ty = fa.fn.locals[pl["l"]]["ty"] if pl else ""
+                if not any(e in ty for e in ERR_TYS):
+                    continue
+                ctx.ob("ERRPROP", "%s|%s|discard:%s" % (cfg, p, nm), False, fa.loc(b),
+                       "%s: an error value (%s) is discarded with `.%s()`: the failure (unreadable "
+                       "line, truncated stream, malformed number) is silently turned into absence "
+                       "or a default" % (p, ty.split("<", 1)[-1][:60], nm))
     ctx.floor("ERRPROP", "fallible calls on the %s path" % label, n, floor)
+
+
+def errprop_corpus(ctx):
+    """ERRPROP on the corpus reader/writer (C19: malformed or unreadable lines are errors)."""
+    errprop_rule(ctx, lambda f: "trainer::corpus::" in f.path and f.krate == "vibrato", "corpus",
+                 cfgs=("A",), floor=2)
 
 
 def uses_of_local(fa, local):
